@@ -1,6 +1,9 @@
 package main
 
-import "strings"
+import (
+	"sort"
+	"strings"
+)
 
 // Finite instantiation of quantified assumptions.
 // Replacing an assumption (forall x. P x) by the conjunction of P t over finitely many ground terms t
@@ -81,18 +84,25 @@ func instantiate(assumes []*Term, goal *Term) ([]*Term, *Term, bool) {
 	any := g2 != goal
 	all := append(append([]*Term{}, assumes...), g2)
 	cands := groundIndexTerms(all)
+	occs := collectSelOccs(all)
+	inst := func(q *Term) []*Term {
+		if r := instForallTriggers(q, occs, cands); r != nil {
+			return r
+		}
+		return instForall(q, cands)
+	}
 	var out []*Term
 	for _, a := range assumes {
 		if a.Kind == kQuant && a.Op == "forall" {
 			any = true
-			out = append(out, instForall(a, cands)...)
+			out = append(out, inst(a)...)
 			continue
 		}
 		if a.Kind == kApp && a.Op == "and" {
 			changed := false
 			for _, c := range a.Args {
 				if c.Kind == kQuant && c.Op == "forall" {
-					out = append(out, instForall(c, cands)...)
+					out = append(out, inst(c)...)
 					changed = true
 				} else {
 					out = append(out, c)
@@ -106,6 +116,190 @@ func instantiate(assumes []*Term, goal *Term) ([]*Term, *Term, bool) {
 		out = append(out, a)
 	}
 	return out, g2, any
+}
+
+// trigger-based instantiation: a quantified variable that occurs as a select index is instantiated with
+// the ground indices of selects on the same heap family (same nesting) occurring in the query.
+type selOcc struct {
+	fam  string
+	sort Sort
+	idx  []*Term // indices from the outermost array inwards
+}
+
+func selChain(t *Term) (*Term, []*Term) {
+	// select(select(A, i), j) -> A, [i, j]
+	var idx []*Term
+	for t.Kind == kApp && t.Op == "select" {
+		idx = append([]*Term{t.Args[1]}, idx...)
+		t = t.Args[0]
+	}
+	return t, idx
+}
+
+func collectSelOccs(ts []*Term) []selOcc {
+	var out []selOcc
+	seen := map[*Term]bool{}
+	dedup := map[string]bool{}
+	var walk func(t *Term, under bool)
+	walk = func(t *Term, under bool) {
+		if seen[t] && !under {
+			return
+		}
+		seen[t] = true
+		if t.Kind == kApp && t.Op == "select" && !t.hasBV {
+			a, idx := selChain(t)
+			key := familyOf(a) + "|" + string(a.Sort)
+			for _, i := range idx {
+				key += "|" + i.String()
+			}
+			if !dedup[key] {
+				dedup[key] = true
+				out = append(out, selOcc{familyOf(a), a.Sort, idx})
+			}
+		}
+		for _, a := range t.Args {
+			walk(a, false)
+		}
+	}
+	for _, t := range ts {
+		walk(t, false)
+	}
+	return out
+}
+
+func instForallTriggers(q *Term, occs []selOcc, cands map[Sort][]*Term) []*Term {
+	bound := map[string]int{}
+	for i, v := range q.Bound {
+		bound[v.Op] = i
+	}
+	// find trigger selects in the body: chains whose indices are exactly bound variables
+	type trig struct {
+		fam  string
+		sort Sort
+		vars []int // bound var position per index level, -1 = ground/other
+		gidx []*Term
+	}
+	var trigs []trig
+	seen := map[*Term]bool{}
+	var walk func(t *Term)
+	walk = func(t *Term) {
+		if seen[t] {
+			return
+		}
+		seen[t] = true
+		if t.Kind == kApp && t.Op == "select" && t.hasBV {
+			a, idx := selChain(t)
+			if !a.hasBV {
+				tr := trig{fam: familyOf(a), sort: a.Sort}
+				okT := false
+				for _, i := range idx {
+					if i.Kind == kBound {
+						if p, ok := bound[i.Op]; ok {
+							tr.vars = append(tr.vars, p)
+							tr.gidx = append(tr.gidx, nil)
+							okT = true
+							continue
+						}
+					}
+					if i.hasBV {
+						okT = false
+						tr.vars = nil
+						break
+					}
+					tr.vars = append(tr.vars, -1)
+					tr.gidx = append(tr.gidx, i)
+				}
+				if okT && tr.vars != nil {
+					trigs = append(trigs, tr)
+				}
+			}
+		}
+		for _, a := range t.Args {
+			walk(a)
+		}
+	}
+	walk(q.Args[0])
+	if len(trigs) == 0 {
+		return nil
+	}
+	// assignments from matching occurrences
+	var res []*Term
+	done := map[string]bool{}
+	emit := func(asg []*Term) {
+		if len(res) >= 400 {
+			return
+		}
+		m := map[string]*Term{}
+		key := ""
+		for i, v := range q.Bound {
+			if asg[i] == nil {
+				return
+			}
+			m[v.Op] = asg[i]
+			key += asg[i].String() + "|"
+		}
+		if done[key] {
+			return
+		}
+		done[key] = true
+		b := Subst(q.Args[0], m)
+		if !b.IsTrue() {
+			res = append(res, b)
+		}
+	}
+	for _, tr := range trigs {
+		covers := map[int]bool{}
+		for _, p := range tr.vars {
+			if p >= 0 {
+				covers[p] = true
+			}
+		}
+		for _, oc := range occs {
+			if oc.sort != tr.sort || len(oc.idx) < len(tr.vars) {
+				continue
+			}
+			if tr.fam != "" && oc.fam != "" && tr.fam != oc.fam {
+				continue
+			}
+			asg := make([]*Term, len(q.Bound))
+			okM := true
+			for lvl, p := range tr.vars {
+				if p >= 0 {
+					if asg[p] != nil && !same(asg[p], oc.idx[lvl]) {
+						okM = false
+						break
+					}
+					asg[p] = oc.idx[lvl]
+				}
+			}
+			if !okM {
+				continue
+			}
+			// remaining variables: from other triggers' matches is too costly; use small candidate sets
+			var missing []int
+			for i := range q.Bound {
+				if asg[i] == nil {
+					missing = append(missing, i)
+				}
+			}
+			if len(missing) == 0 {
+				emit(asg)
+				continue
+			}
+			if len(missing) == 1 {
+				cs := cands[q.Bound[missing[0]].Sort]
+				if len(cs) > 24 {
+					cs = cs[:24]
+				}
+				for _, c := range cs {
+					a2 := append([]*Term{}, asg...)
+					a2[missing[0]] = c
+					emit(a2)
+				}
+			}
+		}
+	}
+	return res
 }
 
 func instForall(q *Term, cands map[Sort][]*Term) []*Term {
@@ -160,11 +354,36 @@ func closureAxioms(ts []*Term) []*Term {
 				done[t.Op] = true
 				r := BoundVar("r", SInt)
 				out = append(out, Forall([]*Term{r}, Implies(Select(alloc0, r), Or(Eq(Select(t, r), IntLit(0)), And(Gt(Select(t, r), IntLit(0)), Select(alloc0, Select(t, r)))))))
+			} else if heapRefFam[fam] && strings.HasPrefix(string(t.Sort), "(Array Int (Array ") && strings.HasSuffix(string(t.Sort), " Int))") {
+				// containers (map values, slice elements) of an allocated container are nil or allocated
+				done[t.Op] = true
+				_, inner := arrParts(t.Sort)
+				ks, _ := arrParts(inner)
+				r := BoundVar("r", SInt)
+				k := BoundVar("k", ks)
+				e := Select(Select(t, r), k)
+				out = append(out, Forall([]*Term{r, k}, Implies(Select(alloc0, r), Or(Eq(e, IntLit(0)), And(Gt(e, IntLit(0)), Select(alloc0, e))))))
 			}
 		}
 	}
 	for _, t := range ts {
 		walk(t)
+	}
+	// function identities: non-nil and pairwise distinct
+	var fns []*Term
+	fseen := map[string]bool{}
+	for t := range seen {
+		if t.Kind == kConst && t.Sort == SInt && strings.HasPrefix(strings.Trim(t.Op, "|"), "fn$") && !fseen[t.Op] {
+			fseen[t.Op] = true
+			fns = append(fns, t)
+		}
+	}
+	sort.Slice(fns, func(i, j int) bool { return fns[i].Op < fns[j].Op })
+	for i, f := range fns {
+		out = append(out, Gt(f, IntLit(0)))
+		for _, g := range fns[i+1:] {
+			out = append(out, Neq(f, g))
+		}
 	}
 	return out
 }
